@@ -1426,7 +1426,11 @@ class ScalarDistribution(BaseDistribution):
 
         """
         if self.is_joint():
-            outcome = self._outcome_ctor(outcome)
+            try:
+                outcome = self._outcome_ctor(outcome)
+            except (TypeError, ditException):
+                # Not even a sequence of symbols: certainly not in the sample space.
+                raise InvalidOutcome(outcome)
 
         if not self.has_outcome(outcome, null=True):
             raise InvalidOutcome(outcome)
